@@ -70,6 +70,17 @@ fn faults_for(case: &Case, image: &[u8], hlen: usize, chunk: usize, rng: &mut Rn
             v.push(Fault::ChunkMove { i, j: rng.usize_below(i) });
         }
     }
+    if case.param("two_faults", 0) == 1 && ranges.len() >= 3 {
+        // two damaged chunks i < j in one image (whatever the first failure sets must still hold when the second is met)
+        for _ in 0..12 {
+            let i = rng.usize_below(ranges.len() - 1);
+            let j = i + 1 + rng.usize_below(ranges.len() - 1 - i);
+            let (a, b) = (&ranges[i], &ranges[j]);
+            let fa = if a.payload > 0 && rng.chance(1, 2) { Fault::Flip { byte: hlen + a.start + rng.usize_below(a.payload), bit: rng.below(8) as u8 } } else { Fault::Flip { byte: hlen + a.start + a.payload + rng.usize_below(a.tag.max(1)), bit: rng.below(8) as u8 } };
+            let fb = if b.payload > 0 && rng.chance(1, 2) { Fault::Flip { byte: hlen + b.start + rng.usize_below(b.payload), bit: rng.below(8) as u8 } } else { Fault::Flip { byte: hlen + b.start + b.payload + rng.usize_below(b.tag.max(1)), bit: rng.below(8) as u8 } };
+            v.push(Fault::Multi { faults: vec![fa, fb] });
+        }
+    }
     v
 }
 
@@ -85,7 +96,7 @@ impl Prop for C04 {
         "fault_enumeration"
     }
     fn rule(&self) -> String {
-        "run = seeded encrypted archive (E or C+E) with >= 3 encryption chunks (the first 6 runs - thorough: 60 -: production constants, encryption only, one content block of 6..10 MiB, i.e. 48..80 chunks, faults at six chunk indices spread over the stream); on encrypt-only runs the first file's content is the adversarial block-lookalike class: a well-formed FileStart(\"intruder\")/content/EndOfFile(correct hash)/EndOfArchiveData sequence planted so that it begins exactly at chunk boundaries. Stored-byte faults for EVERY chunk index i (first/last/seeded byte of the payload and of the tag flipped or substituted, truncation inside the payload, at the tag start and inside the tag, chunk duplicated, deleted, swapped with or replaced by a neighbour or an earlier chunk, replaced by the same-index chunk of a second archive with its own key). Each altered image is repaired in authenticated (default) and unauthenticated mode. Oracle: authenticated result has only original names, every file is a prefix of the original, and holds no more than what the chunks verified contiguously from the start carry - computed (a) by the independent format model from the verified plaintext prefix (encrypt-only) and (b) metamorphically by repairing the image cut at the start of the first failing chunk; the authenticated result is a per-file prefix of the unauthenticated one. evaluations = altered images judged; distinct_nontrivial = distinct (variant, layers, fault kind, first failing chunk class, payload/tag, lookalike?, outcome) signatures.".into()
+        "run = seeded encrypted archive (E or C+E) with >= 3 encryption chunks (the first 6 runs - thorough: 60 -: production constants, encryption only, one content block of 6..10 MiB, i.e. 48..80 chunks, faults at six chunk indices spread over the stream); on encrypt-only runs the first file's content is the adversarial block-lookalike class: a well-formed FileStart(\"intruder\")/content/EndOfFile(correct hash)/EndOfArchiveData sequence planted so that it begins exactly at chunk boundaries. Stored-byte faults for EVERY chunk index i (first/last/seeded byte of the payload and of the tag flipped or substituted, truncation inside the payload, at the tag start and inside the tag, chunk duplicated, deleted, swapped with or replaced by a neighbour or an earlier chunk, replaced by the same-index chunk of a second archive with its own key). One run in three damages TWO chunks i < j of one image as well; one scaled run in four repairs through a source that returns short reads; one in three has 2-4 recipients. Each altered image is repaired in authenticated (default) and unauthenticated mode. Oracle: authenticated result has only original names, every file is a prefix of the original, and holds no more than what the chunks verified contiguously from the start carry - computed (a) by the independent format model from the verified plaintext prefix (encrypt-only) and (b) metamorphically by repairing the image cut at the start of the first failing chunk; the authenticated result is a per-file prefix of the unauthenticated one. evaluations = altered images judged; distinct_nontrivial = distinct (variant, layers, fault kind, first failing chunk class, payload/tag, lookalike?, outcome) signatures.".into()
     }
     fn assumptions(&self) -> Vec<String> {
         vec![
@@ -177,7 +188,20 @@ impl Prop for C04 {
             let fill = Data::Rand { n: nchunks * chunk, seed: rng.u64() };
             ops.insert(0, WOp::Add { name: Name::lit("filler"), data: fill, src: Src::exact() });
         }
+        if rng.chance(1, 3) {
+            cfg.recipients = rng.range(2, 4) as usize;
+            cfg.reader = rng.usize_below(cfg.recipients);
+        }
         let mut case = Case::new("C04", cfg, ops);
+        if !big && rng.chance(1, 4) {
+            // the damaged image is repaired through a source that returns short reads (a chunk's payload and its tag may
+            // arrive in different reads, a read may end inside the tag)
+            let mut r = ReadCfg::for_cfg(&case.cfg);
+            r.sched = Sched::make(&mut rng, false);
+            case.rcfg = Some(r);
+            case.params.insert("max_chunks".into(), 6);
+        }
+        case.params.insert("two_faults".into(), i64::from(rng.chance(1, 3)));
         case.params.insert("fault_seed".into(), (rng.u64() >> 1) as i64);
         case.params.insert("lookalike".into(), i64::from(lookalike));
         case.params.insert("explicit_auth".into(), i64::from(rng.chance(1, 2)));
@@ -209,7 +233,7 @@ impl Prop for C04 {
         let model = model_of(&case.ops);
         let hlen = header_len(&case.cfg);
         let orig = refmla::decrypt_stream(&key, &nonce, &image[hlen..], chunk);
-        let mut rcfg = ReadCfg::for_cfg(&case.cfg);
+        let mut rcfg = case.rcfg.clone().unwrap_or_else(|| ReadCfg::for_cfg(&case.cfg));
         // the default mode is reached both ways: untouched configuration (as `mlar repair`) or explicit setter
         rcfg.explicit_auth_mode = case.param("explicit_auth", 0) == 1;
         let ocfg = ArcCfg { variant: case.cfg.variant.clone(), layers: 0, level: 0, recipients: 0, reader: 0, rng_seed: 0, key_seed: 0 };
